@@ -69,9 +69,10 @@ Clause(c) ==
      ELSE IF ~Near(c.std_k * c.std_k * n * n, 256 * (n * ssq - sum * sum), (2 * c.std_k + 2) * n * n) THEN "std_of_pixel_set"
      ELSE IF ~Near(4 * c.mad_k, S * Median2([p \in P |-> Abs(2 * v[p] - Median2(v, P))], P), 6) THEN "mad_of_pixel_set"
      \* centroid: centre of mass of the values over P, in image coordinates (x = column)
-     ELSE IF c.sigma = 0 /\ sum > 0 /\
-             (c.nan.xcen \/ c.nan.ycen \/ ~Near(c.xcen_k * sum, S * FoldSet(LAMBDA p, acc : acc + p[2] * v[p], 0, P), 2 * sum + 2)
-              \/ ~Near(c.ycen_k * sum, S * FoldSet(LAMBDA p, acc : acc + p[1] * v[p], 0, P), 2 * sum + 2)) THEN "centroid_is_centre_of_mass_in_image_coordinates"
+     \* (a negative net flux - sky apertures on background-subtracted data - still has a centre of mass; only a zero sum has none)
+     ELSE IF c.sigma = 0 /\ sum # 0 /\
+             (c.nan.xcen \/ c.nan.ycen \/ ~Near(c.xcen_k * sum, S * FoldSet(LAMBDA p, acc : acc + p[2] * v[p], 0, P), 2 * Abs(sum) + 2)
+              \/ ~Near(c.ycen_k * sum, S * FoldSet(LAMBDA p, acc : acc + p[1] * v[p], 0, P), 2 * Abs(sum) + 2)) THEN "centroid_is_centre_of_mass_in_image_coordinates"
      \* covariance matrix = second central moments of the values over P (about their centre of mass), in 1/256 px^2:
      \* cov_xx * m00^2 = m02 * m00 - m01^2 etc. (coordinates relative to the box origin).  Clearly regular sources (det >= 2/144)
      \* carry no regularisation; clearly thin ones (det < 1/288) get the same k/12 on both diagonals; a negative determinant
